@@ -15,7 +15,8 @@ import Grass.Selector
   As-found switches (theorems are about `false`, the correspondence runs with `true`):
   * `mediaCheckNoop`      — D16: `assert_compatible_media_context` (extension.rs:68) does nothing;
   * `mandatoryNotTracked` — D18: no "target selector was not found" error exists;
-  * `supAsFound`          — C11-S1: `trim` uses the superselector walk as it stands.
+  * `supAsFound`          — C11-S1 (fixed by 75edc67): `trim` used the unsound superselector walk;
+                            the code as it stands is `false`.
 -/
 namespace Grass.Extend
 open Grass.Selector
@@ -41,7 +42,7 @@ structure Switches where
   deriving DecidableEq, Repr, Inhabited
 
 def Switches.spec : Switches := ⟨false, false, false⟩
-def Switches.asFound : Switches := ⟨true, true, true⟩
+def Switches.asFound : Switches := ⟨true, true, false⟩
 
 /-- one alternative for a simple selector of a compound: the simple itself (`is_original`) or an extender -/
 structure Opt where
@@ -145,8 +146,11 @@ def srcSpecOf (exts : List Ext) (s : Simple) : Nat :=
 def checkMedia (sw : Switches) (ruleMedia : Option Nat) (path : List Opt) : Bool :=
   sw.mediaCheckNoop || path.all (mediaOk ruleMedia)
 
-/-- `extend_compound` (mod.rs:355), Normal mode.  `ok none` = no extension applies. -/
-def extendCompound (sw : Switches) (exts : List Ext) (ruleMedia : Option Nat) (inOriginal : Bool)
+/-- `extend_compound` (mod.rs:355), Normal mode.  `ok none` = no extension applies.  `exts` are the
+    extensions being applied (all of them in `add_selector`, only the new ones in
+    `extend_existing_selectors`); `all` are all registered so far — `source_specificity` is a
+    store-wide map (mod.rs:90). -/
+def extendCompound (sw : Switches) (exts all : List Ext) (ruleMedia : Option Nat) (inOriginal : Bool)
     (c : Compound) : Except XErr (Option (List Complex)) :=
   match buildOptions exts [] c none with
   | none => .ok none
@@ -166,19 +170,19 @@ def extendCompound (sw : Switches) (exts : List Ext) (ruleMedia : Option Nat) (i
             match unified with
             | [] => []
             | f :: r => ([.compound f.2], inOriginal) :: r.map fun pu => ([.compound pu.2], false)
-          .ok (some ((trim (isSuperComplex0 sw.supAsFound) (srcSpecOf exts) flagged).map (·.1)))
+          .ok (some ((trim (isSuperComplex0 sw.supAsFound) (srcSpecOf all) flagged).map (·.1)))
         else .error .crossMedia
 
 /-- `extended_not_expanded` of `extend_complex` (mod.rs:267–310) -/
-def complexChoices (sw : Switches) (exts : List Ext) (ruleMedia : Option Nat) (isOrig : Bool) :
+def complexChoices (sw : Switches) (exts all : List Ext) (ruleMedia : Option Nat) (isOrig : Bool) :
     Complex → Except XErr (List (List Complex) × Bool)
   | [] => .ok ([], false)
   | .comb cb :: rest =>
-    match complexChoices sw exts ruleMedia isOrig rest with
+    match complexChoices sw exts all ruleMedia isOrig rest with
     | .error e => .error e
     | .ok (chs, any) => .ok ([[.comb cb]] :: chs, any)
   | .compound c :: rest =>
-    match extendCompound sw exts ruleMedia isOrig c, complexChoices sw exts ruleMedia isOrig rest with
+    match extendCompound sw exts all ruleMedia isOrig c, complexChoices sw exts all ruleMedia isOrig rest with
     | .error e, _ => .error e
     | _, .error e => .error e
     | .ok none, .ok (chs, any) => .ok ([[.compound c]] :: chs, any)
@@ -186,9 +190,9 @@ def complexChoices (sw : Switches) (exts : List Ext) (ruleMedia : Option Nat) (i
 
 /-- `extend_complex` (mod.rs:244): every extender is a single compound, so `weave` of a path is the
     concatenation of its components -/
-def extendComplex (sw : Switches) (exts : List Ext) (ruleMedia : Option Nat) (x : Flagged) :
+def extendComplex (sw : Switches) (exts all : List Ext) (ruleMedia : Option Nat) (x : Flagged) :
     Except XErr (Option (List Flagged)) :=
-  match complexChoices sw exts ruleMedia x.2 x.1 with
+  match complexChoices sw exts all ruleMedia x.2 x.1 with
   | .error e => .error e
   | .ok (_, false) => .ok none
   | .ok (chs, true) =>
@@ -196,23 +200,23 @@ def extendComplex (sw : Switches) (exts : List Ext) (ruleMedia : Option Nat) (x 
     | [] => .ok (some [])
     | f :: r => .ok (some ((f, x.2) :: r.map fun y => (y, false)))
 
-def extendEach (sw : Switches) (exts : List Ext) (ruleMedia : Option Nat) :
+def extendEach (sw : Switches) (exts all : List Ext) (ruleMedia : Option Nat) :
     List Flagged → Except XErr (List Flagged × Bool)
   | [] => .ok ([], false)
   | x :: rest =>
-    match extendComplex sw exts ruleMedia x, extendEach sw exts ruleMedia rest with
+    match extendComplex sw exts all ruleMedia x, extendEach sw exts all ruleMedia rest with
     | .error e, _ => .error e
     | _, .error e => .error e
     | .ok none, .ok (r, any) => .ok (x :: r, any)
     | .ok (some ys), .ok (r, _) => .ok (ys ++ r, true)
 
 /-- `extend_list` (mod.rs:202) -/
-def extendList (sw : Switches) (exts : List Ext) (ruleMedia : Option Nat) (l : List Flagged) :
+def extendList (sw : Switches) (exts all : List Ext) (ruleMedia : Option Nat) (l : List Flagged) :
     Except XErr (List Flagged) :=
-  match extendEach sw exts ruleMedia l with
+  match extendEach sw exts all ruleMedia l with
   | .error e => .error e
   | .ok (_, false) => .ok l
-  | .ok (ext, true) => .ok (trim (isSuperComplex0 sw.supAsFound) (srcSpecOf exts) ext)
+  | .ok (ext, true) => .ok (trim (isSuperComplex0 sw.supAsFound) (srcSpecOf all) ext)
 
 /-! ### the store: rules and `@extend`s in document order (mod.rs:863, :938; visitor.rs:1290) -/
 
@@ -244,14 +248,14 @@ def asCompounds (l : SelList) : Option (List Compound) :=
 def addSelector (sw : Switches) (st : Store) (sel : SelList) (media : Option Nat) : Except XErr Store :=
   if !inFragment sel then .error .unsupported else
   let flagged : List Flagged := sel.map fun x => (x, !SelList.isInvisible sel)
-  match (if st.exts.isEmpty then .ok flagged else extendList sw st.exts media flagged) with
+  match (if st.exts.isEmpty then .ok flagged else extendList sw st.exts st.exts media flagged) with
   | .error e => .error e
   | .ok cur => .ok { st with rules := st.rules ++ [⟨sel, cur, media⟩] }
 
-def reextend (sw : Switches) (newExts : List Ext) : List Rule → Except XErr (List Rule)
+def reextend (sw : Switches) (newExts all : List Ext) : List Rule → Except XErr (List Rule)
   | [] => .ok []
   | r :: rs =>
-    match extendList sw newExts r.media r.current, reextend sw newExts rs with
+    match extendList sw newExts all r.media r.current, reextend sw newExts all rs with
     | .error e, _ => .error e
     | _, .error e => .error e
     | .ok cur, .ok rs' => .ok ({ r with current := cur } :: rs')
@@ -273,7 +277,7 @@ def addExtension (sw : Switches) (st : Store) (extender : SelList) (target : Sim
     let newExts := fresh.map fun c => (⟨c, target, optional, media⟩ : Ext)
     let allExts := st.exts ++ newExts
     -- source_specificity is complete before `extend_existing_selectors` runs (mod.rs:989, :1021)
-    match reextend sw newExts (st.rules.map fun r => r) with
+    match reextend sw newExts allExts (st.rules.map fun r => r) with
     | .error e => .error e
     | .ok rules => .ok { rules := rules, exts := allExts }
 
@@ -348,6 +352,22 @@ def creditN (exts : List (SelList × Simple)) : Nat → Simple → Ctx → Bool
   | 0 => fun _ _ => false
   | n + 1 => fun s p => exts.any fun et => decide (et.2 = s) && cList (creditN exts n) et.1 p
 
+/-- credited matching in which at most one simple selector per compound may use its credit
+    (driver side: recognises the incremental-extension class C10-X2, whose missing matches need
+    the credits of two different targets inside one compound) -/
+def cComp1 (credit : Simple → Ctx → Bool) : Compound → Ctx → Bool
+  | [], _ => true
+  | s :: ss, p => (mSimple s p && cComp1 credit ss p) || (cSimple credit s p && mComp ss p)
+
+def cSteps1 (credit : Simple → Ctx → Bool) : RSteps → Ctx → Bool
+  | [], _ => true
+  | (r, c) :: rest, p => (steps r p).any fun q => cComp1 credit c q && cSteps1 credit rest q
+
+def cList1 (credit : Simple → Ctx → Bool) (L : SelList) (p : Ctx) : Bool :=
+  L.any fun X => match norm X with
+    | some r => cComp1 credit r.1 p && cSteps1 credit r.2 p
+    | none => false
+
 /-! ### driver entry points -/
 open Grass.Proto
 
@@ -405,11 +425,21 @@ def hasChain (items : List Item) : Bool :=
   let exts : List (SelList × Simple) := extPairs items
   exts.any fun (_, t) => exts.any fun (e, _) => (allSimples e).contains t
 
+/-- unification can fail somewhere in the stylesheet: two different type names, ids or
+    pseudo-elements occur among its selectors (otherwise `unify` never answers `none`,
+    C11_unify_none_only_if, and incremental extension cannot drop an alternative) -/
+def canClash (items : List Item) : Bool :=
+  let sels : List SelList := items.map fun | .rule s _ => s | .extend e t _ _ => [[.compound [t]]] ++ e
+  let ss := sels.flatMap allSimples
+  let distinct := fun (f : Simple → Option Name) => ((ss.filterMap f).eraseDups).length ≥ 2
+  distinct (fun | .type n => some n | _ => none) || distinct (fun | .id n => some n | _ => none) ||
+  distinct (fun | .pelem n => some n | _ => none)
+
 def handle : List String → String
   | "expect" :: rest =>
     match parseItems rest with
     | some items => "ok" ++ String.join ((expectErrors items).map fun e => " " ++ xerrStr e) ++
-        (if hasChain items then " chain" else "")
+        (if hasChain items then " chain" else "") ++ (if canClash items then " clash" else "")
     | none => "unsupported"
   | "run" :: a :: b :: c :: rest =>
     match parseBool? a, parseBool? b, parseBool? c with
@@ -445,6 +475,40 @@ def handle : List String → String
         else "bad-op"
       | _, _, _ => "unsupported"
     | _, _, _ => "bad-op"
+  | "x2" :: ctx :: orig :: rest =>
+    -- does the credited match of `orig` at `ctx` need two credits inside one compound?
+    match (hexDecode ctx).bind (fun t => parseCtx t.toList), decodeSel orig, parseItems rest with
+    | some p, some S, some items =>
+      let pairs := extPairs items
+      let cr := creditN pairs (pairs.length + 1)
+      "ok " ++ boolStr (cList cr S p && !cList1 cr S p)
+    | _, _, _ => "unsupported"
+  | "floor" :: seed :: n :: orig :: out :: rest =>
+    -- second law, directly on the implementation's output: wherever the selector obtained by putting a
+    -- (single-compound) extender in place of its target matches, the output has a matching complex at least as
+    -- specific as that extender
+    match seed.toNat?, n.toNat?, decodeSel orig, decodeSel out, parseItems rest with
+    | some seed, some n, some S, some O, some items =>
+      if !noSelL S then "unsupported" else
+      let cands : List (Complex × Nat) := (extPairs items).flatMap fun (E, T) =>
+        E.flatMap fun ex =>
+          match ex with
+          | [.compound ec] =>
+            S.flatMap fun x =>
+              (List.range x.length).filterMap fun i =>
+                match (x[i]? : Option Component) with
+                | some (Component.compound c) =>
+                  if c.contains T then
+                    (unifyCompound ec (c.erase T)).map fun u =>
+                      (x.take i ++ [.compound (if (c.erase T).isEmpty then ec else u)] ++ x.drop (i + 1), (specC ec).1)
+                  else none
+                | _ => none
+          | _ => []
+      let top := fun (p : Ctx) => (O.filter (matchesComplex · p)).foldl (fun m c => Nat.max m (specComplex c).2) 0
+      verdict (ctxUniverse ([S, O] ++ [cands.map (·.1)]) seed n false)
+        (fun p => cands.any fun cy => matchesComplex cy.1 p)
+        (fun p => cands.all fun cy => !matchesComplex cy.1 p || decide (top p ≥ cy.2))
+    | _, _, _, _, _ => "unsupported"
   | ["noplaceholder", out] =>
     match decodeSel out with
     | some l => "ok " ++ boolStr (!hasPlaceholder l)
